@@ -147,4 +147,39 @@ def progKeyswitch (cols : Nat) (zero : Val) (aDft : Val) (vmpTmp : Val → Val) 
                 .write 3 cr (.read 3 (fun cr' => outs j (normRest o cr' :: acc)))
             outs cols [])))))))))
 
+/-- `glwe_mul_plain` / `glwe_tensor_apply` column loop: cell 0 = `a_prep`, cell 1 = `b_prep` (each written by its
+`cnv_prepare_*`, whose own temporary — cell 2 — is written from the real operand before it is read), per column cell 3 =
+the accumulator `res_dft` (written by `cnv_apply_dft` from `a_prep`, `b_prep` through its buffer, cell 4), cell 5 = the
+normalisation carry (written by the first step). -/
+def progCnvProduct (cols : Nat) (tmpA tmpB : Val) (prepL prepR : Val → Val) (cnvTmp : Val → Val → Val)
+    (cnv : Nat → Val → Val → Val → Val) (normFirst : Val → Val × Val) (normRest : Val → Val → Val) : Prog Val (List Val) :=
+  .write 2 tmpA (.read 2 (fun ta => .write 0 (prepL ta)
+    (.write 2 tmpB (.read 2 (fun tb => .write 1 (prepR tb)
+      (let rec cols_ : Nat → List Val → Prog Val (List Val)
+        | 0, acc => .ret acc
+        | j + 1, acc =>
+          .read 0 (fun a => .read 1 (fun b => .write 4 (cnvTmp a b) (.read 4 (fun t => .write 3 (cnv j a b t)
+            (.read 3 (fun r =>
+              let (o, cr) := normFirst r
+              .write 5 cr (.read 5 (fun cr' => cols_ j (normRest o cr' :: acc)))))))))
+      cols_ cols []))))))
+
+/-- block-binary blind rotation, one block: cell 0 = `acc_dft` (written by `vec_znx_dft_apply` from the accumulator, a real
+operand), cell 1 = `acc_add_dft` (zeroed), per key of the block cell 2 = `vmp_res` (written by the product through its buffer,
+cell 3), cell 4 = `vmp_xai` (written by `svp_apply_dft_to_dft`), then cell 5 = `acc_add_big` (written by the inverse DFT) and the
+carry, cell 6. -/
+def progBlindRotationBlock (block : Nat) (accDft zero : Val) (vmpTmp : Nat → Val → Val) (vmp : Nat → Val → Val → Val)
+    (svp : Nat → Val → Val) (upd : Val → Val → Val → Val) (idft : Val → Val) (addSmall : Val → Val)
+    (normFirst : Val → Val × Val) (normRest : Val → Val → Val) : Prog Val Val :=
+  let body : Nat → Prog Val Unit := fun i =>
+    .read 0 (fun a => .write 3 (vmpTmp i a) (.read 3 (fun t => .write 2 (vmp i a t)
+      (.read 2 (fun r => .write 4 (svp i r)
+        (.read 4 (fun x => .read 1 (fun s => .write 1 (upd s x r) (.ret ())))))))))
+  let tail : Prog Val Val :=
+    .read 1 (fun s => .write 5 (idft s) (.read 5 (fun b => .write 5 (addSmall b)
+      (.read 5 (fun b' =>
+        let (o, cr) := normFirst b'
+        .write 6 cr (.read 6 (fun cr' => .ret (normRest o cr'))))))))
+  .write 0 accDft (.write 1 zero ((loopN block body).bind (fun _ => tail)))
+
 end ScratchProg
